@@ -207,6 +207,7 @@ pub enum TyperError {
 
     /// A template was given more arguments than it expects
     TooManyTemplateArguments(SourceLocation),
+    TemplateInstantiationTooDeep(SourceLocation),
 
     /// Type id with declarator modifiers are not valid for any RSSL types
     InvalidTypeDeclarator(SourceLocation),
@@ -1015,6 +1016,11 @@ impl CompileError for TyperExternalError {
                     Severity::Error,
                 ),
             },
+            TyperError::TemplateInstantiationTooDeep(loc) => w.write_message(
+                &|f| write!(f, "template instantiation nested too deeply"),
+                *loc,
+                Severity::Error,
+            ),
             TyperError::TooManyTemplateArguments(loc) => w.write_message(
                 &|f| write!(f, "too many template arguments"),
                 *loc,
